@@ -30,7 +30,7 @@ func RenderNoisy(t *rapid.T, ds []ref.Directive) string {
 		return rapid.SampledFrom([]string{"", "", "", "", " ", "\t", "  "}).Draw(t, "trail")
 	}
 	comment := func() string {
-		c := rapid.SampledFrom([]string{"# comment", "* Heading", "// note", "#", "*", "//", "# 2020-01-01 open Assets:X", "* \"quoted\"", "#\ttab", "// ünï", "# 50% of rent", "* 100%s %d %v %%", "// \\n \\t \\", "# \"quoted\" 'text'", "#!shebang", "* @accrue monthly", "// include \"x\""}).Draw(t, "comment")
+		c := rapid.SampledFrom([]string{"# comment", "* Heading", "// note", "#", "*", "//", "# 2020-01-01 open Assets:X", "* \"quoted\"", "#\ttab", "// ünï", "# replacement \ufffd char", "# 50% of rent", "* 100%s %d %v %%", "// \\n \\t \\", "# \"quoted\" 'text'", "#!shebang", "* @accrue monthly", "// include \"x\""}).Draw(t, "comment")
 		return c + trail()
 	}
 	gap := func(needBlank bool) {
